@@ -39,6 +39,7 @@ var (
 	ErrAuthMustBeEnabled           = status.Error(codes.InvalidArgument, "authentication must be on")
 	ErrAuthMustBeDisabled          = status.Error(codes.InvalidArgument, "authentication must be disabled when restoring systemdb")
 	ErrNotAllowedInMaintenanceMode = status.Error(codes.InvalidArgument, "operation not allowed in maintenance mode")
+	ErrTxDatabaseMismatch          = status.Error(codes.PermissionDenied, "transaction was created on a different database than the one currently in use")
 	ErrReservedDatabase            = errors.New("database is reserved")
 	ErrPermissionDenied            = errors.New("permission denied")
 	ErrNotSupported                = errors.New("operation not supported")
